@@ -20,9 +20,7 @@ import (
 	"log"
 	"math"
 	"math/bits"
-	"os"
 	"path/filepath"
-	"runtime/pprof"
 	"sort"
 	"strconv"
 	"strings"
@@ -906,7 +904,7 @@ func (c *c06env) checkInst(ci *c06inst, nStates int) {
 				for l := 0; l < 64; l++ {
 					if m>>uint(l)&1 == 0 {
 						if ci.mem == "lds" {
-							binary.LittleEndian.PutUint32(p.v[l*1024+c06Addr*4:], 0xfffffff0)
+							binary.LittleEndian.PutUint32(p.v[l*1024+c06Addr*4:], 0xffff0000)
 						} else {
 							binary.LittleEndian.PutUint64(p.v[l*1024+c06Addr*4:], 0xdead00000000+uint64(l)*64)
 						}
@@ -1068,7 +1066,7 @@ func (c *c06env) scalarDescs(format string, op uint32) []desc {
 
 func (c *c06env) checkScalar(arch, format string, it *insts.InstType) (implemented bool) {
 	r := c.r
-	for _, d := range c.scalarDescs(format, uint32(it.Opcode)) {
+	for di, d := range c.scalarDescs(format, uint32(it.Opcode)) {
 		inst, words, err := c.decode(arch, d)
 		if err != nil {
 			r.Count("scalar-undecodable")
@@ -1082,7 +1080,7 @@ func (c *c06env) checkScalar(arch, format string, it *insts.InstType) (implement
 		st := c.newState(ci, false)
 		binary.LittleEndian.PutUint64(st.s[20*4:], 0x7e0000100000)
 		e1, e2 := c.rng.U64()|1, c.rng.U64()&^1
-		if c.rng.Chance(30) {
+		if di == 0 {
 			e2 = 0
 		}
 		a, b := *st, *st
@@ -1275,11 +1273,6 @@ func (c *c06env) corr(n int) {
 
 func runC06(r *Run, rng *Rng, replay string) {
 	log.SetOutput(io.Discard) // log.Panicf of the ALUs prints before panicking
-	if pf := os.Getenv("C06_PPROF"); pf != "" {
-		f, _ := os.Create(pf)
-		pprof.StartCPUProfile(f)
-		defer pprof.StopCPUProfile()
-	}
 	c := &c06env{r: r, rng: rng, e: newALUEnv(), mem: &c06mem{}}
 	c.e.gcn3 = emu.NewALU(c.mem)
 	c.e.cdna3 = cdna3.NewALU(c.mem)
